@@ -157,8 +157,15 @@ package redisemu
 //@ requires rl != nil && 0 <= rl.pos && rl.pos <= len(rl.content) && rl.nextPos < 0
 //@ modifies respDeserializer.pos respDeserializer.nextPos respDeserializer.lineNumber alloc map<respValue,respValue> map<respValue,struct{}> orderedRespMap respValue
 //@ ensures cursor: rl.nextPos < 0 && old(rl.pos) <= rl.pos && rl.pos <= len(rl.content)
-//@ ensures progress: valid ==> rl.pos > old(rl.pos)
 //@ end
+
+//@ define rdmods
+//@ loop 1 modifies respDeserializer.pos respDeserializer.nextPos respDeserializer.lineNumber alloc map<respValue,respValue> map<respValue,struct{}> orderedRespMap respValue
+//@ end
+
+// the dynamic types a deserialized value can carry (nil included); the ones
+// backed by slices or maps cannot be Go map keys
+//@ pred respKnown(v respValue) = v.data == nil || istype(v.data, respSimpleString) || istype(v.data, respErrorString) || istype(v.data, respBulkString) || istype(v.data, respInt) || istype(v.data, respDouble) || istype(v.data, respBool) || istype(v.data, respBlobError) || istype(v.data, respNull) || istype(v.data, respEnd) || istype(v.data, respBigNumber) || istype(v.data, respVerbatimString) || istype(v.data, respArray) || istype(v.data, respSet) || istype(v.data, respAttributeMap) || istype(v.data, respMap) || istype(v.data, respPush)
 
 //@ func respValue.toString
 //@ prop C13
@@ -170,23 +177,38 @@ package redisemu
 //@ pure
 //@ requires rv != nil
 
+//@ func respValue.isHashable
+//@ prop C13
+//@ pure
+//@ requires rv != nil
+//@ ensures hashable: result && respKnown(*rv) ==> hashable(*rv)
+
 //@ func respNormalizeKey
 //@ prop C13
 //@ modifies alloc respValue
+//@ ensures known: respKnown(k) ==> respKnown(output)
 
 //@ func newRespMapSized
 //@ prop C13
 //@ requires 0 <= size && size <= (1<<47)
 //@ modifies alloc map<respValue,respValue>
+//@ ensures nonnil: result.m != nil
 
 //@ func newRespMap
 //@ prop C13
 //@ modifies alloc map<respValue,respValue>
+//@ ensures nonnil: result.m != nil
 
 //@ func orderedRespMap.set
 //@ prop C13
-//@ requires orm != nil
+//@ requires orm != nil && orm.m != nil && hashable(k)
 //@ modifies map<respValue,respValue> orderedRespMap
+
+//@ func respDeserializer.allocHint
+//@ prop C13
+//@ pure
+//@ requires rl != nil && 0 <= rl.pos && rl.pos <= len(rl.content)
+//@ ensures bounded: result <= count && result <= len(rl.content) && (count >= 0 ==> result >= 0)
 
 //@ func respDeserializer.getCount64
 //@ prop C01 C13
@@ -206,18 +228,84 @@ package redisemu
 //@ func respDeserializer.getNextValue
 //@ prop C01 C13
 //@ include rdstate
+//@ ensures progress: valid ==> rl.pos > old(rl.pos)
+//@ ensures known: valid ==> respKnown(value)
 
 //@ func respDeserializer.getNextValueEx
 //@ prop C01 C13
 //@ include rdstate
+//@ ensures progress: valid ==> rl.pos > old(rl.pos)
+//@ ensures known: valid ==> respKnown(value)
 
 //@ func respDeserializer.getNextArray
 //@ prop C01 C13
 //@ include rdstate
+//@ include rdmods
 //@ requires count >= 0
-//@ ensures progress0: valid && count > 0 ==> rl.pos > old(rl.pos)
 //@ loop 1 invariant rl.nextPos < 0 && old(rl.pos) <= rl.pos && rl.pos <= len(rl.content) && 0 <= i
-//@ loop 1 modifies respDeserializer.pos respDeserializer.nextPos respDeserializer.lineNumber alloc map<respValue,respValue> map<respValue,struct{}> orderedRespMap respValue
+
+//@ func respDeserializer.getNextMap
+//@ prop C01 C13
+//@ include rdstate
+//@ include rdmods
+//@ requires pairs >= 0
+//@ loop 1 invariant rl.nextPos < 0 && old(rl.pos) <= rl.pos && rl.pos <= len(rl.content) && 0 <= i && m.m != nil
+
+//@ func respDeserializer.getNextAttributeMap
+//@ prop C01 C13
+//@ include rdstate
+//@ include rdmods
+//@ requires pairs >= 0
+//@ loop 1 invariant rl.nextPos < 0 && old(rl.pos) <= rl.pos && rl.pos <= len(rl.content) && 0 <= i && m != nil
+
+//@ func respDeserializer.getNextSet
+//@ prop C01 C13
+//@ include rdstate
+//@ include rdmods
+//@ requires count >= 0
+//@ loop 1 invariant rl.nextPos < 0 && old(rl.pos) <= rl.pos && rl.pos <= len(rl.content) && 0 <= i && s != nil
+
+//@ func respDeserializer.getNextPush
+//@ prop C01 C13
+//@ include rdstate
+//@ include rdmods
+//@ requires count >= 0
+//@ loop 1 invariant rl.nextPos < 0 && old(rl.pos) <= rl.pos && rl.pos <= len(rl.content) && 0 <= i
+
+//@ func respDeserializer.getChunkedString
+//@ prop C01 C13
+//@ include rdstate
+//@ include rdmods
+//@ ensures progress: valid ==> rl.pos > old(rl.pos)
+//@ loop 1 invariant rl.nextPos < 0 && old(rl.pos) <= rl.pos && rl.pos <= len(rl.content)
+
+//@ func respDeserializer.getNextDynamicArray
+//@ prop C01 C13
+//@ include rdstate
+//@ include rdmods
+//@ ensures progress: valid ==> rl.pos > old(rl.pos)
+//@ loop 1 invariant rl.nextPos < 0 && old(rl.pos) <= rl.pos && rl.pos <= len(rl.content)
+
+//@ func respDeserializer.getNextDynamicMap
+//@ prop C01 C13
+//@ include rdstate
+//@ include rdmods
+//@ ensures progress: valid ==> rl.pos > old(rl.pos)
+//@ loop 1 invariant rl.nextPos < 0 && old(rl.pos) <= rl.pos && rl.pos <= len(rl.content) && m.m != nil
+
+//@ func respDeserializer.getNextDynamicAttributeMap
+//@ prop C01 C13
+//@ include rdstate
+//@ include rdmods
+//@ ensures progress: valid ==> rl.pos > old(rl.pos)
+//@ loop 1 invariant rl.nextPos < 0 && old(rl.pos) <= rl.pos && rl.pos <= len(rl.content) && m != nil
+
+//@ func respDeserializer.getNextDynamicSet
+//@ prop C01 C13
+//@ include rdstate
+//@ include rdmods
+//@ ensures progress: valid ==> rl.pos > old(rl.pos)
+//@ loop 1 invariant rl.nextPos < 0 && old(rl.pos) <= rl.pos && rl.pos <= len(rl.content) && s != nil
 
 //@ func respDeserializer.deserializeNext
 //@ prop C01 C13
